@@ -462,7 +462,8 @@ def run(ctx):
             ctx.fail("C19-R3", b.path, "InvalidSum", "the sum error is no longer returned", b.loc())
 
     # ---- R4 / R5
-    b = cm.body_or_fail(ctx, p, "C19-R4", IW + "Weights::check_length")
+    b = p.body(IW + "Weights::check_length")
+    have_cl = b is not None
     if b is not None:
         eb = ExprBuilder(b)
         good = False
@@ -531,6 +532,16 @@ def run(ctx):
         if helper is not None and any(g[0] == "ok" and contains_call(g[1], helper[1]) for g in gs):
             hn, hl = helper_guards(p, helper)
             g_new, g_len = g_new or hn, g_len or hl
+        # the comparison itself in front of the store (the check written out, or a helper that was
+        # folded into the setter): len(<new weights>.weights) == self.nvoices on the dominating edge
+        for g in gs:
+            if g[0] in ("true", "false"):
+                pos, c = paths.bool_atoms(g)
+                if c[0] == "bin" and ((c[1] == "Eq" and pos) or (c[1] == "Ne" and not pos)):
+                    for l_, r_ in ((c[2], c[3]), (c[3], c[2])):
+                        if show(r_) == "self.nvoices" and l_[0] == "len" and l_[1][0] == "field" and l_[1][2] == "weights" \
+                                and any(x[0] == "call" and x[1] == IW + "Weights::new" and wn(x[2]) for x in eb.expand_all(l_[1][1])):
+                            g_len = True
         if g_new:
             ctx.ok("C19-R4", "%s: store dominated by the success edge of Weights::new(weight)" % name, cm.loc_of(st["span"]))
         else:
@@ -538,7 +549,7 @@ def run(ctx):
         if g_len:
             ctx.ok("C19-R4", "%s: store dominated by the success edge of check_length(weights, self.nvoices)" % name, cm.loc_of(st["span"]))
         else:
-            ctx.fail("C19-R4", b.path, "length check", "the assignment is not dominated by the success edge of check_length(<new weights>, self.nvoices): a wrong-length vector could be stored, or the old weights lost on rejection", cm.loc_of(st["span"]))
+            ctx.fail("C19-R4", b.path, "length check", "the assignment is not dominated by the success edge of check_length(<new weights>, self.nvoices)%s: a wrong-length vector could be stored, or the old weights lost on rejection" % ("" if have_cl else " (no such function any more) or by the comparison len(weights) == self.nvoices itself"), cm.loc_of(st["span"]))
         # no other way to modify self
         for cbb, t, cname, k, ref in mut_arg_calls(b, eb):
             r, ch = root_of(ref)
